@@ -21,6 +21,8 @@ from numbers import Number
 import networkx as nx
 import numpy as np
 from ruamel.yaml import YAML
+from ruamel.yaml.representer import RoundTripRepresenter
+from ruamel.yaml.scalarfloat import ScalarFloat
 
 from pycel.excelformula import ExcelFormula
 from pycel.excelutil import (
@@ -41,6 +43,18 @@ REF_FORMAT = REF_START + '{}' + REF_END
 Mismatch = collections.namedtuple('Mismatch', 'original calced formula')
 
 pycel_logger = logging.getLogger('pycel')
+
+
+class _YamlRepresenter(RoundTripRepresenter):
+    """Write the floats which were read from a yaml/json file like any float
+
+    ruamel.yaml writes them in the layout in which they were read,
+    cutting off the mantissa instead of rounding it.
+    """
+
+
+_YamlRepresenter.add_representer(
+    ScalarFloat, RoundTripRepresenter.represent_float)
 
 
 class ExcelCompiler:
@@ -229,6 +243,7 @@ class ExcelCompiler:
         if not is_json:
             with open(filename, 'w') as f:
                 ymlo = YAML()
+                ymlo.Representer = _YamlRepresenter
                 # never fold a line: a fold next to a tab or to more than
                 # one space does not read back as the text that was written
                 ymlo.width = sys.maxsize
